@@ -68,6 +68,8 @@ class Scratch:
             c.executescript(script)
             c.commit()
             c.close()
+        with open(os.path.join(self.tmpl, "init.sql"), "w") as f:
+            f.write("DELETE FROM u;\n")
         self.reset()
         self.base = self.snapshot()
 
@@ -209,7 +211,7 @@ def signature(tokens_or_sql, kind):
 
 
 FLAG_SETS_BEFORE = [[], ["-readonly"], ["-safe"], ["-header", "-csv"], ["-separator", "|"], ["-lookaside", "1", "2"], ["-bail"],
-                    ["-cmd", "-readonly"], ["-nullvalue", "-safe"], ["-cmd", "SELECT 1"], ["-cmd", "DELETE FROM u"], ["-init", "nofile"],
+                    ["-cmd", "-readonly"], ["-nullvalue", "-safe"], ["-cmd", "SELECT 1"], ["-cmd", "DELETE FROM u"], ["-init", "init.sql"],
                     ["-unknown"], ["--readonly"], ["-cmd", ".shell touch pwned"], ["-separator", "-readonly"]]
 FLAG_SETS_AFTER = [[], ["-version"], ["-help"], ["--help"], ["-readonly"], ["-safe"], ["-cmd", "DELETE FROM t"], ["-cmd", "DELETE FROM t", "-version"]]
 CLI_ARGS = [[], ["SELECT 1"], ["SELECT * FROM t"], ["DELETE FROM t"], ["SELECT 1", "DELETE FROM t"], ["SELECT 1;", "SELECT 2"],
